@@ -59,3 +59,16 @@ void h_has_unit(void)
     VF_REACH("has_unit"); VF_COVER(r == ABT_TRUE && n == 4 && empty_[0] && empty_[1] && empty_[2] && empty_[3], "only blocked units"); VF_COVER(r == ABT_FALSE && n == 3, "nothing");
 }
 #endif
+#ifdef VF_UNIT_FINISH
+/* ABTI_sched_finish / ABTI_sched_exit: what xstream_join, ABT_finalize and
+ * ABTI_xstream_check_events rely on -- exactly the FINISH (EXIT) bit is or-ed
+ * into the scheduler's request word, other pending requests survive. */
+void h_sched_finish_exit(void)
+{
+    ABTI_sched s; uint32_t r0 = s.request.val; int which;
+    if (which) ABTI_sched_finish(&s); else ABTI_sched_exit(&s);
+    VF_ASSERT(s.request.val == (r0 | (which ? ABTI_SCHED_REQ_FINISH : ABTI_SCHED_REQ_EXIT)), "exactly the FINISH / EXIT bit is added; pending requests are kept");
+    VF_ASSERT(ABTI_SCHED_REQ_FINISH != ABTI_SCHED_REQ_EXIT && ABTI_SCHED_REQ_FINISH != 0 && (ABTI_SCHED_REQ_FINISH & ABTI_SCHED_REQ_EXIT) == 0, "distinct request bits");
+    VF_REACH("finish/exit"); VF_COVER(which && r0 == ABTI_SCHED_REQ_REPLACE, "finish while a replacement is pending");
+}
+#endif
